@@ -1174,3 +1174,6 @@ Proof.
 Qed.
 
 End FP.
+
+Global Hint Rewrite fflatten_FIdent fflatten_FNum fflatten_FStr fflatten_FParen fflatten_FBin fflatten_FUn fflatten_FAccess fflatten_FMethod fflatten_FCall fflatten_FIndex fflatten_FList fflatten_FLet fflatten_FFunc fflatten_FIf fflatten_FTry fflatten_FSwitch fflatten_FClo1 fflatten_FCloN fflatten_FMap fflatten_args_FA_nil fflatten_args_FA_last fflatten_args_FA_cons fflatten_cases_FC_nil fflatten_cases_FC_cons fflatten_entries_FE_nil fflatten_entries_FE_last fflatten_entries_FE_cons ferase_FIdent ferase_FNum ferase_FStr ferase_FParen ferase_FBin ferase_FUn ferase_FAccess ferase_FMethod ferase_FCall ferase_FIndex ferase_FList ferase_FLet ferase_FFunc ferase_FIf ferase_FTry ferase_FSwitch ferase_FClo1 ferase_FCloN ferase_FMap ferase_args_FA_nil ferase_args_FA_last ferase_args_FA_cons ferase_cases_FC_nil ferase_cases_FC_cons ferase_entries_FE_nil ferase_entries_FE_last ferase_entries_FE_cons fwf_FIdent fwf_FNum fwf_FStr fwf_FParen fwf_FBin fwf_FUn fwf_FAccess fwf_FMethod fwf_FCall fwf_FIndex fwf_FList fwf_FLet fwf_FFunc fwf_FIf fwf_FTry fwf_FSwitch fwf_FClo1 fwf_FCloN fwf_FMap fwf_args_FA_nil fwf_args_FA_last fwf_args_FA_cons fwf_cases_FC_nil fwf_cases_FC_cons fwf_entries_FE_nil fwf_entries_FE_last fwf_entries_FE_cons : frnd.
+Ltac fsimpl := autorewrite with frnd in *.
